@@ -18,6 +18,7 @@
 From Coq Require Import Strings.String Strings.Ascii.
 From RipV Require Import Base.Prelude Base.Json Model.ToolLoop Proofs.ToolLoopProofs.
 From RipV Require Import Base.Utf8 Model.ToolLoopSse Proofs.ToolLoopSseProofs.
+From RipV Require Import Model.ToolLoopGate Proofs.ToolLoopGateProofs.
 From RipV Require Model.Sse Model.SseJson Proofs.SseProofs.
 From Coq Require Import Permutation Sorted.
 
@@ -455,3 +456,66 @@ Proof. exact ex_lf_noeol. Qed.
 Example c16_example_call_after_done :
   has_call_frame body_call_after_done = false /\ drained_ids OBS_BOTH body_call_after_done = [].
 Proof. exact ex_call_after_done. Qed.
+
+(* ================= the send gate one level down: validator messages -> payload.errors() -> gate ================= *)
+(* `valid` above is abstract.  In the code it is  validate_create_response_body(&body) -> CreateResponsePayload::new
+   (errors = the validator's messages, each through a per-message post-processing `post`; /repo: kept as they are) ->
+   `if !req.payload.errors().is_empty() { refuse }`  (Model/ToolLoopGate.v).  jsonschema quotes the offending instance in
+   its messages — for an invalid `input` the whole item array, with tool outputs and arguments of any size — so a
+   post-processing that looks at the messages (bounding their length, say) sits between the verdict and the gate.
+   For every shape of post-processing that T1 accepts (gen_gate_errors_ok: PS_keep = /repo, PS_map = each message
+   rewritten by a total function) the gate IS the validator's verdict, with as many errors reported as the validator
+   found ... *)
+Theorem c16_gate_is_validator_verdict :
+  forall s post verrs, shape_never_drops s = true -> shape_admits s post ->
+  gate_open post verrs = is_nil verrs /\ length (payload_errors post verrs) = length verrs.
+Proof. exact gate_is_verdict. Qed.
+Print Assumptions c16_gate_is_validator_verdict.
+
+(* ... so the decision does not depend on the messages (how long they are, what they quote) *)
+Theorem c16_gate_ignores_message_lengths :
+  forall s post verrs verrs', shape_never_drops s = true -> shape_admits s post ->
+  (verrs = [] <-> verrs' = []) -> gate_open post verrs = gate_open post verrs'.
+Proof. exact gate_ignores_messages. Qed.
+Print Assumptions c16_gate_ignores_message_lengths.
+
+(* c16_invalid_never_sent with the gate spelled out: every request the loop sends had no validator message; a request
+   with a message is refused and ends the run *)
+Theorem c16_invalid_never_sent_whatever_the_messages :
+  forall s post verrs g tool prompt init script,
+  shape_never_drops s = true -> shape_admits s post ->
+  (forall i q, nth_error (sent (run g (valid_by post verrs) tool prompt init script)) i = Some q ->
+     verrs (N.of_nat i) q = []) /\
+  (forall q, res_rejected (run g (valid_by post verrs) tool prompt init script) = Some q ->
+     res_reason (run g (valid_by post verrs) tool prompt init script) = InvalidRequest /\
+     verrs (nlen (sent (run g (valid_by post verrs) tool prompt init script))) q <> []).
+Proof. exact invalid_never_sent_by_errors. Qed.
+Print Assumptions c16_invalid_never_sent_whatever_the_messages.
+
+(* /repo's post-processing (none) is an admitted shape; so is a clipping that cuts at the last character boundary at
+   or below the bound (it never loses a message) *)
+Example c16_example_gate_of_repo : shape_admits POST_SHAPE POST_KEEP /\ shape_never_drops POST_SHAPE = true.
+Proof. exact post_keep_admitted. Qed.
+Theorem c16_clip_at_boundary_never_drops : forall n m, clip_floor n m <> None.
+Proof. exact clip_floor_total. Qed.
+Print Assumptions c16_clip_at_boundary_never_drops.
+Example c16_example_gate_long_and_short :
+  gate_open POST_KEEP [MSG_2049; lit "x"; []] = false /\ gate_open (clip_floor 2048) [MSG_2049; lit "x"; []] = false /\
+  gate_open POST_KEEP [] = true.
+Proof. exact ex_gate_long_and_short. Qed.
+
+(* seeded change C16-8: messages longer than 2048 bytes are cut with `message.get(..2048)?` under filter_map.  `get`
+   answers None when byte 2048 is inside a character: the message is dropped, and when it was the only one the gate
+   opens.  Witness: a 2049-byte message (one ASCII byte, 1024 two-byte characters) *)
+Theorem c16_clip_get_gate_refuted :
+  exists verrs, verrs <> [] /\ gate_open (clip_get 2048) verrs = true /\ gate_open (clip_floor 2048) verrs = false.
+Proof. exact clip_get_gate_refuted. Qed.
+Print Assumptions c16_clip_get_gate_refuted.
+
+(* ... and the loop sends the request the validator has a message for (with the boundary-safe clipping it is refused) *)
+Theorem c16_clip_get_sends_invalid_refuted :
+  exists q, nth_error (sent (clip_run (clip_get 2048))) 0 = Some q /\ clip_verrs 0 q <> [] /\
+            res_rejected (clip_run (clip_get 2048)) = None /\
+            sent (clip_run (clip_floor 2048)) = [] /\ res_reason (clip_run (clip_floor 2048)) = InvalidRequest.
+Proof. exact clip_get_sends_invalid_refuted. Qed.
+Print Assumptions c16_clip_get_sends_invalid_refuted.
